@@ -303,8 +303,13 @@ impl AggregatorNode {
     /// The DMQ node hands one message (payload + the pool id of its authenticated envelope) to the
     /// aggregator's consumer, and the signature processor runs one round.
     pub fn dmq_deliver(&mut self, message: mithril_common::messages::RegisterSignatureMessageDmq, party_id: String) -> Option<String> {
+        self.dmq_deliver_batch(vec![(message, party_id)])
+    }
+
+    /// Several messages handed over by the DMQ node in one answer (one round of the processor).
+    pub fn dmq_deliver_batch(&mut self, batch: Vec<(mithril_common::messages::RegisterSignatureMessageDmq, String)>) -> Option<String> {
         let inner = self.inner.as_ref().expect("aggregator is down");
-        inner.dmq_node.queue.lock().unwrap().push((message, party_id));
+        inner.dmq_node.queue.lock().unwrap().extend(batch);
         let processor = inner.signature_processor.clone();
         let rt = &self.rt;
         let res = std::panic::catch_unwind(std::panic::AssertUnwindSafe(|| rt.block_on(async move { processor.process_signatures().await })));
